@@ -6,6 +6,9 @@ Ops (one output line each):
   `send <sr> ev <keyhex> <p> <t>` | `send <sr> wm <ts>` | `send <sr> bar <id>`  → `passed` | `parked` | `busy`
   `send <sr> done` (SourceComplete) likewise
   `go <sr>`   → `noop` | `ok <observations of the consumer's event function>`
+  `gohold <sr>` → like `go`, but a barrier that completes the checkpoint stops the consumer at the start of its
+                flush: `held rel:<woken senders>`; while held `go <x>` → `queued` | `noop`, `resume` → `ok <…>`,
+                everything else → `consumer-held`
   `failnext`  → `armed` (the next ack to the job fails)      `redeploy` → `redeployed:<senders turned away>`
   `tick` / `stale` → `none` | `H(...)`
   `state`     → `ck=<id>:<missing>|- slots=<per sender p|k|->`   (mechanism detail)
@@ -20,6 +23,8 @@ structure DSt where
   /-- checkpoint ids already written to the DKV in this deployment: the DKV looks checkpoints up by id, so the
   contents of a second checkpoint with a reused id cannot be read back (both sides print `dup`) -/
   ids : List Nat := []
+  held : Option Nat := none
+  queue : List Nat := []
 
 def insSorted (k : Bytes) : List Bytes → List Bytes
   | [] => [k]
@@ -76,7 +81,11 @@ def doAct (st : DSt) (a : Act) : DSt × List String :=
   let r := step st.s a
   ({ st with s := r.1, ids := newIds st.ids r.2 }, showAll st.keys st.ids r.2)
 
-def step' (st : DSt) : List String → DSt × String
+def isReleased : Obs → Bool
+  | .released _ => true
+  | _ => false
+
+def step'' (st : DSt) : List String → DSt × String
   | ["send", sr, "ev", k, p, t] =>
     let key := hexOr k
     let st := { st with keys := insSorted key st.keys }
@@ -117,6 +126,30 @@ def step' (st : DSt) : List String → DSt × String
     (st, if o.isEmpty then "none" else joinWith " " o)
   | ["state"] => (st, if st.s.stopped then "gone" else showState st.s)
   | _ => (st, "bad-op")
+
+/-- ops around a held consumer go through `hstep` -/
+def step' (st : DSt) (ws : List String) : DSt × String :=
+  let h : HSt := { s := st.s, held := st.held, queue := st.queue }
+  match st.held, ws with
+  | none, ["gohold", sr] =>
+    if completing st.s (natOr sr) then
+      let r := hstep h (.hold (natOr sr))
+      ({ st with held := r.1.held, queue := r.1.queue },
+       s!"held rel:{joinWith "." ((parkedList st.s).map toString)}")
+    else step'' st ["go", sr]
+  | none, ["resume"] => (st, "noop")
+  | none, _ => step'' st ws
+  | some _, ["go", x] =>
+    let r := hstep h (.base (.go (natOr x)))
+    ({ st with queue := r.1.queue }, if r.1.queue.length != st.queue.length then "queued" else "noop")
+  | some _, ["resume"] =>
+    let r := hstep h .resume
+    let shown := showAll st.keys st.ids (r.2.filter fun o => !isReleased o)
+    ({ st with s := r.1.s, held := none, queue := [], ids := newIds st.ids r.2 }, joinWith " " ("ok" :: shown))
+  | some _, ["send", sr, "ev", k, _, _] =>
+    -- the key universe grows even though the call is refused (the harness does the same)
+    ({ st with keys := insSorted (hexOr k) st.keys }, if natOr sr < st.s.k then "consumer-held" else "bad-op")
+  | some _, _ => (st, "consumer-held")
 
 def handle (lines : Array String) (i : Nat) (out : Array String) : Nat × Array String :=
   let hdr := words (lines.getD (i - 1) "")
